@@ -393,6 +393,88 @@ void run(bool sync, bool wait_rcv, bool with_a) {
 
 }  // namespace doc
 
+// =====================================================================================
+//  canary / watcher / guard
+// =====================================================================================
+namespace kan {
+
+using unifex::canary;
+
+// the object that contains the canary (an operation state); destroyed by the "completion" thread
+struct Owner {
+  uint32_t magic = MAGIC;
+  canary c;
+  int payload = 0;
+};
+
+struct World {
+  alignas(16) unsigned char owner_storage[sizeof(Owner)];
+  alignas(16) unsigned char watcher_storage[sizeof(canary::watcher)];
+  Owner* owner = nullptr;
+  canary::watcher* w = nullptr;
+  bool owner_destroyed = false, watcher_destroyed = false, guard_held = false;
+  bool cdtor_begun = false;
+
+  World() {
+    owner = ::new (static_cast<void*>(owner_storage)) Owner;
+    w = ::new (static_cast<void*>(watcher_storage)) canary::watcher(owner->c.watch());
+  }
+
+  // T1: the thread that owns the watcher (the tail of a start() function)
+  void watcher_thread(bool use_alive) {
+    if (use_alive) {
+      bool truthy;
+      {
+        auto g = w->alive();
+        truthy = static_cast<bool>(g);
+        rt::obs("alive %d", truthy ? 1 : 0);
+        if (truthy) {
+          guard_held = true;
+          if (owner_destroyed) rt::fail("alive() truthy although the canary is destroyed");
+          rt::point("guarded-work");
+          if (owner_destroyed || owner->magic != MAGIC) rt::fail("canary's owner destroyed while a guard was held");
+          else owner->payload++;
+          guard_held = false;
+        } else if (!cdtor_begun) {
+          rt::fail("alive() falsy although the canary's destructor has not begun");
+        }
+      }   // ~guard
+      if (truthy) rt::obs("guard.release");
+    }
+    w->~watcher();
+    std::memset(watcher_storage, POISON, sizeof watcher_storage);
+    watcher_destroyed = true;
+    rt::obs("wdtor.end");
+  }
+
+  // T2: completion destroys the owner (and with it the canary)
+  void canary_thread() {
+    cdtor_begun = true;
+    rt::obs("cdtor.begin");
+    owner->~Owner();
+    if (guard_held) rt::fail("~canary returned while a guard was held");
+    std::memset(owner_storage, POISON, sizeof owner_storage);
+    owner_destroyed = true;
+    rt::obs("cdtor.end");
+  }
+
+  void finish() {
+    if (!owner_destroyed || !watcher_destroyed) rt::fail("harness: a destructor did not run");
+    if (!all_poison(owner_storage, sizeof owner_storage)) rt::fail("canary memory was written after its destruction");
+    if (!all_poison(watcher_storage, sizeof watcher_storage)) rt::fail("watcher memory was written after its destruction");
+  }
+};
+
+void run(bool use_alive) {
+  World w;
+  int t1 = rt::spawn([&] { w.watcher_thread(use_alive); });
+  int t2 = rt::spawn([&] { w.canary_thread(); });
+  rt::join(t1); rt::join(t2);
+  w.finish();
+}
+
+}  // namespace kan
+
 }  // namespace
 
 // ---- tracked heap (see namespace heap) -------------------------------------------------------------
@@ -431,5 +513,9 @@ SCENARIO(d_race)   { doc::run(/*sync*/ false, /*wait_rcv*/ false, /*A*/ true); }
 SCENARIO(d_detach) { doc::run(false, true, true); }
 // the child completes inside its start(); T1 = stop requester
 SCENARIO(d_sync)   { doc::run(true, false, false); }
+
+// ---- canary: T0 constructs, T1 = watcher's thread (alive / guard / ~watcher), T2 = ~canary ----------
+SCENARIO(k_guard) { kan::run(true); }
+SCENARIO(k_dtors) { kan::run(false); }
 
 RT_MAIN()
